@@ -187,3 +187,11 @@ package annotations
 //@   loop 2 invariant forall s string :: inDom(headerMap, s) ==> headerMap[s].GetName() == s && s != "" && (member(serviceHeaders, headerMap[s]) || member(methodHeaders, headerMap[s]))
 //@   loop 3 invariant forall i int :: 0 <= i && i < len(headerNames) ==> inDom(headerMap, headerNames[i])
 //@   loop 4 invariant len(result) == _i && (forall k int :: 0 <= k && k < len(result) ==> result[k] == headerMap[headerNames[k]])
+
+//@ func GetInt64Encoding(field *protogen.Field) (r sebufhttp.Int64Encoding)
+//@   pure
+//@   ensures r == spec.int64Encoding(field)
+
+//@ func IsInt64NumberEncoding(field *protogen.Field) (r bool)
+//@   pure
+//@   ensures r == spec.int64Number(field)
